@@ -53,7 +53,7 @@ func c10Trees(es []*ref.Node, ops []string) []*ref.Node {
 }
 
 // operand texts; the document nests so that pipes change what they mean
-var c10Operands = []string{"a", "b", "c", "n", "x", "x.n", "@.a", "a[0]", "xs[0]", "`1`", "`2`", "`0`", "`3`", "`true`", "`false`", "`null`", "'s'", "length(xs)", "(a)", "(n)", "abs(b)", "xs[*]", "ys[*]", "{n: n}.n", "[a][0]", "xs[]", "ys[]", "a[]", "xs[?@]", "x.xs[]", "xs[1:]", "*", "x.*"}
+var c10Operands = []string{"a", "b", "c", "n", "x", "x.n", "@.a", "a[0]", "xs[0]", "`1`", "`2`", "`0`", "`3`", "`true`", "`false`", "`null`", "'s'", "length(xs)", "(a)", "(n)", "abs(b)", "xs[*]", "ys[*]", "{n: n}.n", "[a][0]", "xs[]", "ys[]", "a[]", "xs[?@]", "x.xs[]", "xs[1:]", "*", "x.*", "x.[n]", "x.{n: n}", "x.[*]", "x.[n][0]", "x.{n: n}.n", "@.[a]", "x.[n, n]"}
 
 var c10Vals = []string{"0", "1", "2", "3", "5", "-1", "-2", "0.5", "7", "10", "true", "false", "null", `"s"`, "[]", "[1]", "[2,3]", `{"n":4}`}
 
@@ -479,7 +479,7 @@ func c10Literals(c *Ctx, idx int) {
 func init() {
 	Register(&Property{
 		ID:            "C10",
-		Rule:          "unparenthesised chains of binary operators: all 18x18 ordered pairs (with and without unary prefixes !, -, +, U+2212 on operands) and all 18^3 ordered triples (thorough; a seeded sample in quick) of the operator spellings | || && == != < <= > >= + - U+2212 * U+00D7 / U+00F7 // % around operands drawn from fields, literals, selectors, function calls, parenthesised expressions and projections; for each chain the generator searches documents on which the specified grouping gives a value that every other binary-tree grouping does not (only such distinguishing instances count); checks: compiled tree of the chain = compiled tree of the chain with the implied parentheses written out (AST fingerprint hook; decides groupings no document can distinguish), library(chain) = model(chain), library(chain) = library(chain with the implied parentheses written out), and every alternative grouping written with explicit parentheses = model; plus selectors/unary operators against every binary operator; literals stream: chains of 3-5 arithmetic/comparison operators over a mix of fields and literal numbers (incl. 2^31, 2^32, ~3.04e9, 4e9, 2^53+1, 2^63-1, -2^63, 10^19-1): value = model, = the same chain with implied parentheses, = the same chain with every literal moved into the document; paren-override stream: x op1 (y op2 z) and its variants over operands for which regrouping changes the value (34-digit rounding, overflow, binary rounding of Go floats), as json.Number / decimal128 / float64: value = model where decided, = the same computation with the group bound to a let variable first; postfix-operands stream: 62 left operands (a call of every builtin, type() of every kind of value, fields, literals) x 14 binary operators x 20 right operands (raw strings spelling type names and other words, literals, fields, calls, @, $, multi-selects) x 10 selector tails - the bare text against the implied parentheses (also inside a filter and a multi-select) and against the model",
+		Rule:          "unparenthesised chains of binary operators: all 18x18 ordered pairs (with and without unary prefixes !, -, +, U+2212 on operands) and all 18^3 ordered triples (thorough; a seeded sample in quick) of the operator spellings | || && == != < <= > >= + - U+2212 * U+00D7 / U+00F7 // % around operands drawn from fields, literals, selectors, function calls, parenthesised expressions, projections and dotted multi-selects (x.[n], x.{n: n}, x.[*]); for each chain the generator searches documents on which the specified grouping gives a value that every other binary-tree grouping does not (only such distinguishing instances count); checks: compiled tree of the chain = compiled tree of the chain with the implied parentheses written out (AST fingerprint hook; decides groupings no document can distinguish), library(chain) = model(chain), library(chain) = library(chain with the implied parentheses written out), and every alternative grouping written with explicit parentheses = model; plus selectors/unary operators against every binary operator; literals stream: chains of 3-5 arithmetic/comparison operators over a mix of fields and literal numbers (incl. 2^31, 2^32, ~3.04e9, 4e9, 2^53+1, 2^63-1, -2^63, 10^19-1): value = model, = the same chain with implied parentheses, = the same chain with every literal moved into the document; paren-override stream: x op1 (y op2 z) and its variants over operands for which regrouping changes the value (34-digit rounding, overflow, binary rounding of Go floats), as json.Number / decimal128 / float64: value = model where decided, = the same computation with the group bound to a let variable first; postfix-operands stream: 70 left operands (a call of every builtin, type() of every kind of value, fields, literals, dotted multi-selects and wildcards) x 14 binary operators x 20 right operands (raw strings spelling type names and other words, literals, fields, calls, @, $, multi-selects) x 10 selector tails - the bare text against the implied parentheses (also inside a filter and a multi-select) and against the model",
 		MinNontrivial: 500,
 		Streams: []Stream{
 			{Name: "pairs", N: func(c *Ctx) int { return 2 * len(c10Ops) * len(c10Ops) }, Run: c10Pairs, Exhaustive: true},
@@ -518,7 +518,7 @@ func c10PostSetup() {
 	if c10PostLefts != nil {
 		return
 	}
-	c10PostLefts = []string{"a", "s", "o", "@", "a[0]", "o.b", "'array'", "`1`", "`true`", "!s", "-n", "[a]", "(a)", "a | @"}
+	c10PostLefts = []string{"a", "s", "o", "@", "a[0]", "o.b", "'array'", "`1`", "`true`", "!s", "-n", "[a]", "(a)", "a | @", "o.[b]", "o.{k: b}", "o.[*]", "o.*", "@.[s, n]", "o.[b][0]", "a[*]", "a[]"}
 	for _, fn := range ref.FunctionNames() {
 		mn, _, ex, _ := ref.Arity(fn)
 		if mn == 0 {
